@@ -7,5 +7,12 @@ for pk in ("bn256", "bn254"):
                       globals=["p2"], validate=8, unwind=40, timeout_ms=600000,
                       functions=["%s.gfp%s (pure-Go build, tag generic)" % (pk, fn)] + (["%s.gfpCarry" % pk] if fn != "Carry" else []),
                       bound="all a, b < p (256-bit)"))
+for pk in ("bn256",):
+    P = "go.dedis.ch/kyber/v4/pairing/%s." % pk
+    H.append(dict(name="%s.gfpMul-tail-generic" % pk, pkg="./pairing/" + pk, files=["harness/C18/gfp_%s.go" % pk], entry="HarnessGfpMulTail", mode="bv", tags="generic", globals=["p2"], unwind=40, timeout_ms=600000, replay_entry="HarnessGfpMulTailReplay",
+                  renames={P + "mul": "c18Mul", P + "halfMul": "c18HalfMul"},
+                  stubs=["mul / halfMul (schoolbook products) -> arbitrary values, recorded; assumed: low 256 bits of T + t vanish and (T + t) / 2^256 < 2p (what Montgomery's method provides)"],
+                  functions=["%s.gfpMul (final reduction, pure-Go build)" % pk, "%s.gfpCarry" % pk], bound="all 512-bit T, t satisfying the two stated assumptions",
+                  mutants=[dict(id="C18m1", file="pairing/bn256/gfp_generic.go", old="\t*c = gfP{T[4], T[5], T[6], T[7]}\n\tgfpCarry(c, carry)", new="\t*c = gfP{T[4], T[5], T[6], T[7]}\n\tgfpCarry(c, 0)")]))
 json.dump(dict(property="C18", harnesses=H), open(os.path.join(os.path.dirname(__file__), "..", "specs", "C18.json"), "w"), indent=1)
 print(len(H))
